@@ -17,7 +17,8 @@ ProgsC06 == {
   P(<<HoldOp("w")>>, <<HoldOp("w")>>, <<HoldOp("create")>>),
   P(<<HoldOp("create")>>, <<Rd>>, <<Tr("append", "x")>>),
   P(<<Wr(<<"p", "q", "r">>)>>, <<HoldOp("r")>>, <<HoldOp("w")>>),
-  P(<<Mx, Mx>>, <<Mx>>, <<Mx>>)
+  P(<<Mx, Mx>>, <<Mx>>, <<Mx>>),
+  P(<<HoldOp("wx")>>, <<HoldOp("w")>>, <<Rd>>)
 }
 \* C07: readers, writers and transformers of all length relations
 ProgsC07 == {
